@@ -48,6 +48,8 @@ VARIABLES
                                 \*   revision (0 = pushed low, 1 = generated, 2 = pushed high); number of revision ids handed out
   atts,                         \* atts[d] = leaf -> (name -> [c, pos, len]): the attachment list the gateway resolves for each LEAF
                                 \*   (c = content whose digest is advertised, 0 = an unknown digest; pos = revpos; len = advertised length)
+  old,                          \* old[d] = superseded revision -> the list it had when it got its first child (kept with the backed-up body of the
+                                \*   revision: a client that still holds such a revision can branch off it and repeat its attachments).  Not observable: evolves by the model
   rd,                           \* rd[d] = leaf -> (name -> content of the bytes behind the advertised key, -1 = no such data document)
   api, apierr,                  \* api[d] = leaf -> (name -> [c, len, rd]): the read API's 1.x body with attachment bodies; apierr[d] = leaves it fails for
   blob, badblob,                \* attachment data documents <<d, c>> (d = 0 / c = 0: not a key of these documents / contents); those whose bytes differ from their key
@@ -57,7 +59,7 @@ VARIABLES
   hist
 
 conf  == <<allow, eccv, clen>>
-impl  == <<tree, cur, gen, cls, nr, atts, rd, api, apierr, blob, badblob, pend, inner>>
+impl  == <<tree, cur, gen, cls, nr, atts, old, rd, api, apierr, blob, badblob, pend, inner>>
 ghost == <<want, residue, tainted, dev, settled>>
 vars  == <<conf, impl, ghost, hist>>
 view  == <<conf, impl, ghost>>
@@ -95,7 +97,7 @@ ApiOf(A, B)  == [d \in Docs |-> [l \in (DOMAIN A[d]) \ ApiErrOf(A, B)[d] |->
 Init ==
   /\ allow \in Modes /\ eccv \in Eccvs /\ clen = [c \in Contents |-> c]
   /\ tree = [d \in Docs |-> <<>>] /\ cur = [d \in Docs |-> 0] /\ gen = (0 :> 0) /\ cls = (0 :> 1) /\ nr = 0
-  /\ atts = [d \in Docs |-> <<>>] /\ rd = [d \in Docs |-> <<>>] /\ api = [d \in Docs |-> <<>>] /\ apierr = [d \in Docs |-> {}]
+  /\ atts = [d \in Docs |-> <<>>] /\ old = [d \in Docs |-> <<>>] /\ rd = [d \in Docs |-> <<>>] /\ api = [d \in Docs |-> <<>>] /\ apierr = [d \in Docs |-> {}]
   /\ blob = {} /\ badblob = {} /\ pend = None /\ inner = 0
   /\ want = <<>> /\ residue = {} /\ tainted = {} /\ dev = {} /\ settled = FALSE
   /\ hist = <<>>
@@ -106,6 +108,8 @@ Par(d, k, p) == IF p = 0 /\ k = "put" THEN cur[d] ELSE p
 
 (* would the gateway accept the write now (Put: matchRev must be a leaf, IsIllegalConflict; the environment only sends what a
    client holding revision p can send: a stub repeats an attachment that p carries and whose data the gateway still has) *)
+(* the list the gateway finds for a parent revision: a leaf's own, or the one kept with the body of a superseded revision *)
+PList(d, p) == IF p \in DOMAIN atts[d] THEN atts[d][p] ELSE IF p \in DOMAIN old[d] THEN old[d][p] ELSE <<>>
 LegalKP(d, k, p) ==
   LET t == tree[d] IN
   CASE k = "put"  -> \/ p = 0 /\ (IF DOMAIN t = {} THEN TRUE ELSE t[cur[d]].d)
@@ -116,19 +120,19 @@ LegalKP(d, k, p) ==
 LegalS(d, k, p, s) ==
   /\ (k = "del" => Carried(s) = {})
   /\ \A n \in Names : s[n] = -1 =>
-        /\ p # 0 /\ p \in Leaves(tree[d]) /\ p \in DOMAIN want /\ n \in DOMAIN want[p]
-        /\ n \in DOMAIN atts[d][p] /\ <<d, atts[d][p][n].c>> \in blob
+        /\ p # 0 /\ p \in DOMAIN want /\ n \in DOMAIN want[p]
+        /\ n \in DOMAIN PList(d, p) /\ <<d, PList(d, p)[n].c>> \in blob
 Legal(d, k, p, s) == LegalKP(d, k, p) /\ LegalS(d, k, p, s)
 
 (* the list recorded for the new revision: New = digest of the data, revpos = its generation; Stub = the parent's entry *)
 NewList(d, r, p, s, g) ==
   [n \in Carried(s) |-> IF s[n] > 0 THEN [c |-> s[n], pos |-> g[r], len |-> clen[s[n]]]
-                        ELSE atts[d][p][n]]
+                        ELSE PList(d, p)[n]]
 
 (* ImplCommit: the document afterwards (tree nt, winner nc are parameters: the model adds the revision, the trace gives the recorded
-   tree, which may also have been pruned), the lists, and the sweep.  A document hit by the named deviation is not described. *)
+   tree, which may also have been pruned), the lists, and the sweep.  Documents hit by the named deviation (skip) are not described. *)
 GenOf(x) == IF x \in DOMAIN gen THEN gen[x] ELSE 0
-ImplCommit(d, k, r, p, s, h, nt, nc, dirty) ==
+ImplCommit(d, k, r, p, s, h, nt, nc, skip) ==
   LET g  == Ov(gen, r :> GenOf(Par(d, k, p)) + 1)
       na == [l \in Leaves(nt) |-> IF l = r THEN NewList(d, r, p, s, g) ELSE IF l \in DOMAIN atts[d] THEN atts[d][l] ELSE <<>>]
       A  == [atts EXCEPT ![d] = na]
@@ -136,7 +140,14 @@ ImplCommit(d, k, r, p, s, h, nt, nc, dirty) ==
       B  == (blob \cup Stored(d, s)) \ gone
   IN /\ gen' = g /\ cls' = Ov(cls, r :> (IF k = "push" THEN (IF h = 1 THEN 2 ELSE 0) ELSE 1))
      /\ tree' = [tree EXCEPT ![d] = nt] /\ cur' = [cur EXCEPT ![d] = nc]
-     /\ (dirty \/ (/\ atts' = A /\ blob' = B /\ rd' = RdOf(A, B) /\ api' = ApiOf(A, B) /\ apierr' = ApiErrOf(A, B) /\ badblob' = badblob))
+     /\ old' = (LET pr == Par(d, k, p) IN IF pr \in DOMAIN atts[d] THEN [old EXCEPT ![d] = Ov(old[d], pr :> atts[d][pr])] ELSE old)
+     /\ IF skip = {}
+        THEN /\ atts' = A /\ blob' = B /\ rd' = RdOf(A, B) /\ api' = ApiOf(A, B) /\ apierr' = ApiErrOf(A, B) /\ badblob' = badblob
+        ELSE \* trace validation only (the primed variables are bound to the recorded state): the documents in `skip` are not described
+             /\ \A e \in Docs \ skip : /\ atts'[e] = A[e] /\ rd'[e] = RdOf(A, B)[e] /\ api'[e] = ApiOf(A, B)[e]
+                                       /\ apierr'[e] = ApiErrOf(A, B)[e]
+             /\ {b \in blob' : b[1] \notin skip} = {b \in B : b[1] \notin skip}
+             /\ {b \in badblob' : b[1] \notin skip} = {b \in badblob : b[1] \notin skip}
 
 (* does this write set off the named deviation?  (evaluated on the document AFTER the write) *)
 Deviates(d, r, s, nc, w) == nc # r /\ (Carried(s) # {} \/ (nc \in DOMAIN w /\ DOMAIN w[nc] # {}))
@@ -160,7 +171,7 @@ ImplWrite(d, k, r, p, s, h) ==
       g  == Ov(gen, r :> GenOf(Par(d, k, p)) + 1)
       c  == Ov(cls, r :> (IF k = "push" THEN (IF h = 1 THEN 2 ELSE 0) ELSE 1))
   IN /\ nr' = r
-     /\ \E nc \in WinnersOf(nt, g, c) : ImplCommit(d, k, r, p, s, h, nt, nc, FALSE)
+     /\ \E nc \in WinnersOf(nt, g, c) : ImplCommit(d, k, r, p, s, h, nt, nc, {})
      /\ inner' = (IF pend = None THEN 0 ELSE inner + 1) /\ UNCHANGED pend
 WriteOK(d, k, p, s, h) ==
   /\ Room /\ d \notin tainted /\ (k # "push" => h = 0)
@@ -175,7 +186,7 @@ Write(d, k, p, s, h) ==
 ImplBegin(d, k, r, p, s, h) ==
   /\ pend' = [a |-> "pend", d |-> d, k |-> k, r |-> r, p |-> p, s |-> s, h |-> h] /\ inner' = 0 /\ nr' = r
   /\ blob' = blob \cup Stored(d, s) /\ rd' = RdOf(atts, blob') /\ api' = ApiOf(atts, blob') /\ apierr' = ApiErrOf(atts, blob')
-  /\ UNCHANGED <<tree, cur, gen, cls, atts, badblob>>
+  /\ UNCHANGED <<tree, cur, gen, cls, atts, old, badblob>>
 GhostIdle == UNCHANGED <<want, residue, tainted, dev>> /\ settled' = FALSE
 Begin(d, k, p, s, h) ==
   /\ Brackets /\ pend = None /\ Len(hist) < MaxSteps - 1
@@ -186,7 +197,7 @@ Begin(d, k, p, s, h) ==
 NoSpec == [n \in Names |-> 0]
 Touch ==      \* only the CAS of the bracketed write's document changes
   /\ pend # None /\ inner < MaxInner /\ Room
-  /\ inner' = inner + 1 /\ UNCHANGED <<conf, tree, cur, gen, cls, nr, atts, rd, api, apierr, blob, badblob, pend>> /\ GhostIdle
+  /\ inner' = inner + 1 /\ UNCHANGED <<conf, tree, cur, gen, cls, nr, atts, old, rd, api, apierr, blob, badblob, pend>> /\ GhostIdle
   /\ Step("T", pend.d, "", 0, 0, NoSpec, 0)
 
 ImplEnd(ok) ==
@@ -196,9 +207,9 @@ ImplEnd(ok) ==
               nt == AddRev(tree[q.d], q.r, Par(q.d, q.k, q.p), q.k = "del")
               g  == Ov(gen, q.r :> GenOf(Par(q.d, q.k, q.p)) + 1)
               c  == Ov(cls, q.r :> (IF q.k = "push" THEN (IF q.h = 1 THEN 2 ELSE 0) ELSE 1))
-          IN /\ \E nc \in WinnersOf(nt, g, c) : ImplCommit(q.d, q.k, q.r, q.p, q.s, q.h, nt, nc, FALSE)
+          IN /\ \E nc \in WinnersOf(nt, g, c) : ImplCommit(q.d, q.k, q.r, q.p, q.s, q.h, nt, nc, {})
              /\ UNCHANGED nr
-     ELSE UNCHANGED <<tree, cur, gen, cls, nr, atts, rd, api, apierr, blob, badblob>>
+     ELSE UNCHANGED <<tree, cur, gen, cls, nr, atts, old, rd, api, apierr, blob, badblob>>
 End ==
   /\ pend # None
   /\ LET ok == (Legal(pend.d, pend.k, pend.p, pend.s) /\ pend.d \notin tainted) = TRUE IN
